@@ -12,7 +12,7 @@ META = {
                    'handed to the eigen-solver equals U^T Y V S^-1 assembled densely from the factors (U, s, Vh) of the global SVD of x (split before the snapshot mode) '
                    'and the dense Y; (I) the returned eigenvalues are the eigen-solver values sorted descending (orderings enumerated as cases), exact modes == Y V S^-1 W '
                    'Lambda^-1, standard modes == U W with the columns in the same order; dims/metadata of the mode train; x and y unchanged (in-place LAPACK modelled). '
-                   'Equality with matrix DMD of the unfolding follows because both reduce the same operator with a thin SVD (C05 makes U, s, Vh an SVD of the unfolding). Relative rank cut: with a SYMBOLIC threshold the explorer forks over the kept rank; the kept rank is the number of singular values of the last (global) SVD of x above the cut, the cut is applied to x only, reduced matrix and modes use exactly the kept triplets.',
+                   'Equality with matrix DMD of the unfolding follows because both reduce the same operator with a thin SVD (C05 makes U, s, Vh an SVD of the unfolding). Relative rank cut: with a SYMBOLIC threshold the explorer forks over the kept rank; the kept rank is the number of singular values of the last (global) SVD of x above the cut, the cut is applied to x only, reduced matrix and modes use exactly the kept triplets. Complex-valued y with real x.',
     'bounds': {'quick': 'spatial orders 1-2 (train orders 2-3), mode size 2, 2-3 snapshots, ranks {1,2}, ortho flags on/off, real data, all orderings of <= 3 eigenvalues',
                'thorough': 'spatial order 3, 4 snapshots'},
     'outside': ['the eigenvalues of LAPACK themselves; similarity invariance is linear algebra', 'complex snapshot data (the code transposes without conjugation: documented for real data)',
